@@ -223,7 +223,7 @@ void MD5_Update(MD5_CTX *ctx, const void *data, size_t size)
 	saved_lo = ctx->lo;
 	if ((ctx->lo = (saved_lo + size) & 0x1fffffff) < saved_lo)
 		ctx->hi++;
-	ctx->hi += (MD5_u32plus) size >> 29;
+	ctx->hi += (MD5_u32plus) (size >> 29);
 
 	used = saved_lo & 0x3f;
 
